@@ -277,6 +277,8 @@ let run_case (x : sx) : Stdlib.String.t =
                   let ks = List.map (function
                     | L (A "0" :: k) -> SDot (cp k)
                     | L (A "1" :: k) -> SIdx (cp k)
+                    | L [A "2"] -> SWild true
+                    | L [A "3"] -> SWild false
                     | L (A q :: k) -> SBr (n_of_int (int_of_string q), cp k)
                     | _ -> failwith "bad step") steps in
                   Buffer.add_string b (if chain_path ks = path then "\tKP=1" else "\tKP=0"));
